@@ -1779,7 +1779,7 @@ def registry_stream(pid, ctx):
     s = core.StreamResult("registry")
     d = core.WORK / pid / "registry"; d.mkdir(parents=True, exist_ok=True)
     cases = core.corpus("registry") + ["rf0 all m0;g0;g0", "rf1 all c0;c1;m1;g2|g0;g2;q1/1|q1;c0", "rf2 all c0;c2;c3|m1;m2;g3;g4|q0;q1", "rf3 all m1|m2|g0;g1|m0;g2;g2;g0",
-                                        "rf4 all c1;c1;c2|c0;c0", "rf5 all m1;m2;m3;m1;m2;m3;g0;g1;g2;g3;g4;g5"]
+                                        "rf4 all c1;c1;c2|c0;c0", "rf5 all m1;m2;m3;m1;m2;m3;g0;g1;g2;g3;g4;g5", "rf6 all m0;g0;g0|c1;g0 abort", "rf7 all c0;c1;m2;g2|g0;g1/0 abort"]
     for i in range(90 if ctx["thorough"] else 26):
         acts = []; nids = 0; njobs = 0
         for _ in range(r.randint(1, 4)):
@@ -1792,7 +1792,7 @@ def registry_stream(pid, ctx):
                 elif nids: ops.append(f"q{r.randrange(nids)}")
             kills = [str(r.randrange(njobs))] if njobs and r.random() < 0.2 else []
             acts.append(";".join(ops) + ("/" + ",".join(kills) if kills else ""))
-        cases.append(f"rg{i} all {'|'.join(acts)}")
+        cases.append(f"rg{i} all {'|'.join(acts)}" + (" abort" if i % 4 == 3 else ""))
     impl, culprits, fatal = core.run_chunks("wxreg", cases, 12, 600 if ctx["thorough"] else 240)
     if fatal: s.error = fatal; return s
     for c, why in culprits: s.oracle_failures.append((cases.index(c), c, "", f"no answer on this registry script: {why}"))
@@ -1810,7 +1810,10 @@ def registry_stream(pid, ctx):
         same_out = len(fo) == len(go) and all(a == b or (a == "e?" and b.startswith("e")) for a, b in zip(fo, go))
         if not (same_out and f["leaked"] == g["leaked"] and f["main"] == g["main"]): s.disagreements.append((i, c, o, mo))
         what = None
-        if f["main"] != "ok": what = "graceful quit (grace 300 ms, commands that exit on the signal): the main task had not finished 3 s later — it waits for a job task that the quit never stopped"
+        aborting = c.endswith(" abort")
+        if aborting and f["main"] != "ok": what = "abort quit: the main task had not finished 3 s later"
+        elif aborting and f["leaked"]: what = f"after the ABORT quit and the end of the main task the process(es) of job(s) {f['leaked']} are still running: the worker does not hold that job's task, so dropping its task set did not end it"
+        elif f["main"] != "ok": what = "graceful quit (grace 300 ms, commands that exit on the signal): the main task had not finished 3 s later — it waits for a job task that the quit never stopped"
         elif f["leaked"]: what = f"after the graceful quit and the end of the main task the process(es) of job(s) {f['leaked']} (numbered by creation) are still running: the job was started by an action but is not in the worker's registry, so the quit never reached it"
         if what: s.oracle_failures.append((i, c, o, what))
         s.bump("jobs created", sum(1 for x in fo if x.startswith("n"))); s.bump("existing job returned", sum(1 for x in fo if x.startswith("e")))
@@ -1846,7 +1849,7 @@ def c08_real(ctx):
 PLANS["C08"] = dict(
     modules=["Wx.Job.C08", "Wx.Job.C08b", "Wx.Job.C06", "Wx.Job.C08t", "Wx.Job.C08m", "Wx.Job.SimInduct3", "Wx.Cli.Action", "Wx.Cli.SignalPrioThm", "Wx.Reg.Thm"],
     translate=True,
-    theorems=["Wp.interrupt_and_terminate_are_urgent", "Wp.other_signals_are_high", "Wp.only_two_signals_are_singled_out", "Wp.signalPrio_translated", "Jm.c08_main_bound", "Jm.dead_stays_dead", "Ca.first_interrupt_quits_gracefully", "Ca.graceful_quit_sequence", "Ca.other_signals_pass", "Ca.interrupts_escalate", "Ca.unmapped_signals_pass_unchanged", "Ca.mapped_interrupt_does_not_quit", "Ca.translate_one", "Ca.last_mapping_wins", "Ca.keyboard_eof_quits_gracefully", "Ca.keyboard_eof_ignored_without_option", "Rg.no_job_outside_the_registry", "Rg.minted_ids_are_fresh", "Rg.inv_step", "Rg.inv_endAction", "Rg.get_or_create_twice_leaks_today", "Jm.c08_quit_bound", "Jm.c08_deadline", "Jm.quit_deadline", "Jm.idle_timer", "Jm.deadline_simInv", "Jm.nextEvent_some", "Jm.nextEvent_none", "Jm.c08_delete_after_stop", "Jm.c08_delete_idle", "Jm.c08_same_script_fixed", "Jm.c08_fails_today", "Jm.timer_fires", "Jm.expiry_kills", "Jm.graceful_stop_step", "Jm.held_back", "Jm.c04"],
+    theorems=["Wp.interrupt_and_terminate_are_urgent", "Wp.other_signals_are_high", "Wp.only_two_signals_are_singled_out", "Wp.signalPrio_translated", "Jm.c08_main_bound", "Jm.dead_stays_dead", "Ca.first_interrupt_quits_gracefully", "Ca.graceful_quit_sequence", "Ca.other_signals_pass", "Ca.interrupts_escalate", "Ca.unmapped_signals_pass_unchanged", "Ca.mapped_interrupt_does_not_quit", "Ca.translate_one", "Ca.last_mapping_wins", "Ca.keyboard_eof_quits_gracefully", "Ca.keyboard_eof_ignored_without_option", "Rg.no_job_outside_the_registry", "Rg.abort_reaches_every_job_task", "Rg.minted_ids_are_fresh", "Rg.inv_step", "Rg.inv_endAction", "Rg.get_or_create_twice_leaks_today", "Jm.c08_quit_bound", "Jm.c08_deadline", "Jm.quit_deadline", "Jm.idle_timer", "Jm.deadline_simInv", "Jm.nextEvent_some", "Jm.nextEvent_none", "Jm.c08_delete_after_stop", "Jm.c08_delete_idle", "Jm.c08_same_script_fixed", "Jm.c08_fails_today", "Jm.timer_fires", "Jm.expiry_kills", "Jm.graceful_stop_step", "Jm.held_back", "Jm.c04"],
     bins=[("lib", ["wxquit", "wxquitreal", "wxreg"]), ("cli", ["wxcli-main", "wxcliaction"])],
     streams=lambda ctx: c08_streams(ctx) + [c08_real(ctx), registry_stream("C08", ctx), cli_e2e(ctx, "C08")] + c05_streams(ctx, "cli-quit", "C08", cliquit_cases, cliquit_oracle) + c05_streams(ctx, "cli-sigmap", "C08", sigmap_cases, sigmap_oracle),
     sources=["crates/lib/src/action/worker.rs", "crates/lib/src/action/handler.rs", "crates/lib/src/id.rs", "crates/lib/src/watchexec.rs", "crates/lib/src/late_join_set.rs", "crates/supervisor/src/job/task.rs", "crates/cli/src/config.rs"],
